@@ -1,7 +1,33 @@
-(* Property C04 - nodes that have seen the same blocks agree on the heaviest chain. *)
-From Virel Require Import Lib.Config Lib.U64 Lib.AMap Model.Ledger Model.Node Proofs.NodeBasics.
+(* Property C04 - nodes that have seen the same blocks agree on the heaviest chain.
+   Statements only; proofs in Proofs/ForkChoice.v. *)
+From Virel Require Import Lib.Config Lib.U64 Lib.AMap Model.Ledger Model.Node Proofs.NodeBasics Proofs.ForkChoice Gen.Params.
 Open Scope N_scope.
 
+(* For every configuration, every genesis, and EVERY sequence of deliveries (any blocks - valid, invalid, forked,
+   duplicated, children before parents - with any clock readings), the node's tip is a stored block and no stored
+   block has a larger cumulative difficulty: the main chain always ends at a block of maximal cumulative difficulty
+   among the blocks the node has accepted. *)
+Theorem C04_tip_always_maximal : forall cfg genesis_addr team_key g n0 ops,
+  node0 cfg genesis_addr g = Ok n0 -> b_cd g = b_diff g ->
+  let n := run cfg genesis_addr team_key n0 ops in
+  (exists t, get_block n (top n) = Some t /\ b_cd t = top_cd n) /\
+  (forall h b, get_block n h = Some b -> b_cd b <= top_cd n).
+Proof. exact tip_always_maximal. Qed.
+Print Assumptions C04_tip_always_maximal.
+
+(* the invariant is inductive for single deliveries as well (used by the other node-level properties) *)
+Theorem C04_deliver_preserves_invariant : forall cfg genesis_addr team_key n b now n' out amb,
+  FInv n -> deliver cfg genesis_addr team_key n b now = (n', out, amb) -> FInv n'.
+Proof. exact deliver_inv. Qed.
+Print Assumptions C04_deliver_preserves_invariant.
+
+(* non-vacuity: the genesis node of the verification configuration exists and satisfies the premises *)
+Definition g_example : block := genesis_block cfg_verifnet 7 1 123 (mkcommit 1 1 [0; 0; 0] 0 0 false).
+Theorem C04_premises_satisfiable : exists n0, node0 cfg_verifnet 7 g_example = Ok n0 /\ b_cd g_example = b_diff g_example.
+Proof. eexists. split; [vm_compute; reflexivity|reflexivity]. Qed.
+Print Assumptions C04_premises_satisfiable.
+
+(* a refused delivery returns exactly the node it was given *)
 Theorem C04_rejected_unchanged : forall cfg genesis_addr team_key n b now n' c amb,
   deliver cfg genesis_addr team_key n b now = (n', Rejected c, amb) -> n' = n.
 Proof. exact deliver_rejected_unchanged. Qed.
